@@ -84,6 +84,10 @@ m('revert-F11e-providedBy-swallows', 'C10', 'C providedBy clears every exception
   [(C, "    result = PyObject_GetAttr(ob, str__provides__);\n    if (result == NULL) {\n        if (!PyErr_ExceptionMatches(PyExc_AttributeError)) {\n            /* Propagate non-AttributeErrors */\n            Py_DECREF(cls);\n            return NULL;\n        }\n",
        "    result = PyObject_GetAttr(ob, str__provides__);\n    if (result == NULL) {\n")])
 
+m('own-C11-leak-required-on-error-path', 'C11', 'C _lookup forgets Py_DECREF(required) when the uncached callback raises (my own mutant for the error-path reference balance)',
+  [(C, "        if (result == NULL) {\n            Py_DECREF(cache);\n            Py_DECREF(required);\n            return NULL;\n        }\n        status = PyDict_SetItem(cache, key, result);",
+       "        if (result == NULL) {\n            Py_DECREF(cache);\n            return NULL;\n        }\n        status = PyDict_SetItem(cache, key, result);")])
+
 def sh(*a, **k):
     return subprocess.run(a, capture_output=True, text=True, **k)
 
